@@ -158,6 +158,30 @@ def replay(cfg, idx=0, M=3):
         deploy_companions(project, companions, final=True)
         driver = ('cmd', 'api', 'migrate')[idx % 3]
         out['driver'] = driver
+        if cfg.get('premarked'):
+            # django_migrations already lists the migrations the handover is going to mark
+            stmts = [["CREATE TABLE IF NOT EXISTS django_migrations (id integer NOT NULL PRIMARY KEY "
+                      "AUTOINCREMENT, app varchar(255) NOT NULL, name varchar(255) NOT NULL, "
+                      "applied datetime NOT NULL)", []]]
+            for n_ in range(1, S + 1):
+                stmts.append(["INSERT INTO django_migrations (app, name, applied) VALUES (%s, %s, %s)",
+                              ['shop', mig_name(n_), '2020-01-01 00:00:00']])
+            pm = project.run({'action': 'exec_sql', 'statements': stmts, 'app_prefixes': apps})
+            if pm['outcome'] != 'ok':
+                out['errors'].append(('premark', (pm.get('error') or {}).get('msg')))
+                return out
+        if cfg.get('failFirst'):
+            # a first attempt that fails at the first evolution statement; it must leave no trace
+            before = observe(project.run({'action': 'snapshot', 'app_prefixes': apps}))
+            f = project.run({'action': 'command', 'name': 'evolve',
+                             'options': {'execute': True, 'interactive': False, 'verbosity': 0},
+                             'fault': {'at': 1, 'scope': 'batch'}, 'app_prefixes': apps})
+            after = observe(f)
+            out['failed_attempt'] = {
+                'outcome': after['outcome'], 'fault_fired': bool(f.get('fault_fired')),
+                'changed': {k: (before[k], after[k]) for k in ('mig_rows', 'evo_recorded', 'columns',
+                                                               'sig_method', 'sig_applied')
+                            if before[k] != after[k]}}
         res1 = upgrade(project, driver, apps)
         out['run1'] = observe(res1)
         out['run1']['companion'] = {a: observe(res1, a) for a in companions}
